@@ -466,7 +466,7 @@ fn schedules(ctx: &Ctx, acc: &mut Acc, l: L, tier: Tier, instrumented: bool) {
         for o in &outcomes {
             acc.outcome(&(l.code(), o));
         }
-        acc.count("max_distinct_outcomes_per_program", 0);
+        acc.count("programs_with_more_than_one_outcome", (outcomes.len() > 1) as u64);
         if let Some((choices, what)) = bad.first() {
             // replay the recorded schedule twice before believing it
             let again: Vec<bool> = (0..2)
